@@ -163,7 +163,15 @@ class C16:
         for o in ops:
             if o[0] == "push":
                 o[1] %= kdom
-        return {"mode": "history", "heap": w.choice(["min", "max"]), "keyfn": w.random() < 0.6, "ops": ops}
+        case = {"mode": "history", "heap": w.choice(["min", "max"]), "keyfn": w.random() < 0.6, "ops": ops}
+        # union of two heaps (`a + b`): insertion of a whole second queue at once.  Drawn from a stream of its own so
+        # that the histories of earlier versions are unchanged apart from the inserted steps.
+        mg = st["merge"]
+        if mg.random() < 0.3:
+            for _ in range(mg.choice([1, 1, 2, 3])):
+                ops.insert(mg.randint(0, len(ops)), ["merge", mg.randrange(1 << 16), mg.randrange(1 << 16),
+                                                     int(mg.random() < obs_p)])
+        return case
 
     # ------------------------------------------------------------------ execution
     def run_case(self, case):
@@ -283,6 +291,32 @@ class C16:
                     del live[u]
                     order.remove(u)
                     log.add(step, "rem", u, cur)
+                    last_dec = False
+                elif op == "merge":
+                    # a second queue of the same kind with 0-4 items (bits of a), optionally after one extraction so
+                    # that it holds linked trees, united with the queue under test on the left or on the right
+                    other = (fibonacci.MaxFibonacciHeap if maxheap else fibonacci.FibonacciHeap)(
+                        key=(lambda it: it.k) if keyfn else None)
+                    m = a % 5
+                    fresh = {}
+                    for i in range(m):
+                        k = (b >> (3 * i)) % (KMAX + 1)
+                        fresh[uid] = [other.push(Item(uid, k)), k]
+                        uid += 1
+                    if (a >> 4) & 1 and len(fresh) >= 2:
+                        ks = [v[1] for v in fresh.values()]
+                        want = max(ks) if maxheap else min(ks)
+                        it = other.pop()
+                        if not isinstance(it, Item) or it.uid not in fresh or fresh[it.uid][1] != want:
+                            fail("pop-not-min", op, f"pop() of the second queue returned {it!r}, best key was {want}")
+                        del fresh[it.uid]
+                    heap = (other + heap) if (a >> 5) & 1 else (heap + other)
+                    for u, v in fresh.items():
+                        live[u] = v
+                        order.append(u)
+                    if fresh and len(live) > len(fresh):
+                        counters["probe.merge_two_nonempty"] = counters.get("probe.merge_two_nonempty", 0) + 1
+                    log.add(step, "merge", m, len(fresh), (a >> 5) & 1)
                     last_dec = False
                 elif op == "clear":
                     heap.clear()
